@@ -101,13 +101,15 @@ theorem C17_fatal_surfaces_on_replies (cfg : Cfg) (evs : List Ev) : fatalSurface
 theorem C17_fresh_after_eviction (cfg : Cfg) (evs : List Ev) : freshAfterEviction (toMSteps (run cfg evs)) = true :=
   freshAfterEviction_run cfg evs
 
-/-- the hypothesis of `C17_rejoins_bounded_partial`, as a decidable predicate of configuration and
-    event list: no non-Kafka error escaped the join (finding F12), and after the events the member is
-    started, not stopping, no `stop()` is waiting for consumers and the join coroutine is not in the
-    middle of `on_join_prepare` -/
+/-- the hypothesis of `C17_rejoins_bounded_partial`, a decidable predicate of the STATE the history
+    ends in: started, not stopping, no `stop()` waiting for consumers, the join coroutine not in the
+    middle of `on_join_prepare`, and not idle (a member that wants to rejoin and has no join in flight
+    has a rejoin / retry timer pending — what `C17_never_idle_partial` establishes for every history
+    in which no non-Kafka error escaped the join, and what the F12 state lacks) -/
 def eligible (cfg : Cfg) (evs : List Ev) : Bool :=
-  noNonKafkaEscape evs && (final cfg evs).started && !(final cfg evs).stopping && !(final cfg evs).stopDraining &&
-    (final cfg evs).jpc != .prepare && (final cfg evs).jpc != .hang
+  let s := final cfg evs
+  s.started && !s.stopping && !s.stopDraining && s.jpc != .prepare && s.jpc != .hang &&
+    (!s.rejoinNeeded || s.rejoinD || s.timers.any (fun t => t.kind != .hb))
 
 /-- Bounded rejoin, in model time: once failures cease, an eligible member reaches stable
     membership (`rejoinNeeded = false`: synced, consumers started, heartbeat running —
@@ -119,11 +121,15 @@ theorem C17_rejoins_bounded_partial (cfg : Cfg) (evs : List Ev) (h : eligible cf
       (∀ dt, Ev.advance dt ∈ tail → ∃ t ∈ (final cfg evs).timers, t.kind ≠ .hb ∧
         dt = if (final cfg evs).now < t.due then t.due - (final cfg evs).now else 0) ∧
       (final cfg (evs ++ tail)).rejoinNeeded = false := by
-  simp only [eligible, Bool.and_eq_true, Bool.not_eq_true', bne_iff_ne, ne_eq] at h
-  obtain ⟨⟨⟨⟨⟨h1, h2⟩, h3⟩, h4⟩, h5⟩, h6⟩ := h
-  have hb := final_busy cfg evs (fun e he => by
-    have := List.all_eq_true.mp h1 e he
-    simpa using this)
+  simp only [eligible, Bool.and_eq_true, Bool.not_eq_true', bne_iff_ne, ne_eq, Bool.or_eq_true] at h
+  obtain ⟨⟨⟨⟨⟨h2, h3⟩, h4⟩, h5⟩, h6⟩, h7⟩ := h
+  have hb : Busy (final cfg evs) := by
+    intro _ _ hn hrd
+    rcases h7 with (x | x) | x
+    · rw [hn] at x; cases x
+    · rw [hrd] at x; cases x
+    · obtain ⟨t, ht, hk⟩ := List.any_eq_true.mp x
+      exact ⟨t, ht, by simpa using hk⟩
   obtain ⟨tail, a, b, c, d⟩ := progress cfg (final cfg evs) (final_sinv cfg evs) hb h2 h3 h4 h5 h6
   exact ⟨tail, a, b, c, by unfold final; rw [finalFrom_append]; exact d⟩
 
